@@ -88,10 +88,10 @@ func run(c *core.Ctx) int {
 	}
 	xres := core.RunCases(c, "replace", xcases, core.ChildOpts{Batch: 10, TimeoutS: 900, RlimitAS: 4 << 30})
 
-	nFsm := c.N(160, 4000)
+	nFsm := c.N(240, 6000)
 	var fcases []json.RawMessage
 	for i := 0; i < nFsm; i++ {
-		fcases = append(fcases, core.J(fsmCase{Seed: rng.U64(), Kind: []string{"dirfs", "mapfs"}[i%2], Root: root}))
+		fcases = append(fcases, core.J(fsmCase{Seed: rng.U64(), Kind: []string{"dirfs", "mapfs", "seekfs", "plainfs"}[i%4], Root: root}))
 	}
 	fres := core.RunCases(c, "fsmount", fcases, core.ChildOpts{Batch: 10, TimeoutS: 900, RlimitAS: 4 << 30})
 
